@@ -39,7 +39,7 @@ void A(encryptBlock)(uint8_t *, uint8_t *, uint8_t *); void A(decryptBlock)(uint
 uint32_t A(keySize)(uint8_t *); uint32_t A(blockSize)(uint8_t *);
 uint32_t A(setTweak)(uint8_t *, uint8_t *, uint32_t);
 void ll_c19_Mantis8_swapModes(uint8_t *);
-#ifdef OB_CTR
+#if defined(OB_CTR) || defined(OB_BIGCTR)
 #define AC(fn) CAT(ll_c19_CTR_, K, _##fn)
 void AC(init)(uint8_t *); uint32_t AC(setKey)(uint8_t *, uint8_t *, uint32_t); uint32_t AC(setIV)(uint8_t *, uint8_t *, uint32_t);
 uint32_t AC(setCounterSize)(uint8_t *, uint32_t); void AC(encrypt)(uint8_t *, uint8_t *, uint8_t *, uint32_t);
@@ -55,7 +55,21 @@ void harness(void)
     SYM_U8A(sym_key); SYM_U8A(sym_in); SYM_U8A(sym_t1); SYM_U8A(sym_t2); SYM_U8A(sym_iv);
     ll2c_init_c19_shim_cpp();
     { uint8_t nd[sizeof obj]; memcpy(obj, nd, sizeof obj); }          /* arbitrary memory before construction */
-#if defined(OB_CTR)
+#if defined(OB_BIGCTR)
+    /* CTRCommon glue over a request of NBIG bytes (hundreds of blocks) after a first call of N1 bytes, with a trivial block
+       cipher: counters of the wrapper's loops must not overflow, every byte position gets its keystream byte */
+    static uint8_t bin[NBIG + 64], bout[NBIG + 64]; uint8_t c[16], e[16];
+    { uint8_t nd[sizeof bin]; memcpy(bin, nd, sizeof bin); memcpy(bout, nd, sizeof bout); }      /* data is arbitrary (not part of the replayed inputs) */
+    memcpy(bin, sym_in, sizeof sym_in);
+    AC(init)(obj);
+    CHECK(AC(setKey)(obj, sym_key, 16) == 1, "setKey accepted"); CHECK(AC(setIV)(obj, sym_iv, 16) == 1, "setIV accepted");
+    AC(encrypt)(obj, bout, bin, N1); AC(encrypt)(obj, bout + N1, bin + N1, NBIG);
+    memcpy(c, sym_iv, 16);
+    for (unsigned k = 0; k < N1 + NBIG; k++) {
+        if (k % 16 == 0) { for (int i = 0; i < 16; i++) e[i] = (uint8_t)(c[i] ^ sym_key[i] ^ (uint8_t)(i * 17 + 3)); vh_be_inc(c, 16); }
+        CHECK(bout[k] == (uint8_t)(bin[k] ^ e[k % 16]), "every byte of a large request gets the keystream byte of its position");
+    }
+#elif defined(OB_CTR)
     /* CTR<K>: key, 16-byte IV (every carry chain and the wrap-around are inside the quantifier), data in two calls */
     static CKEY_T ks; uint8_t c[16], e[16];
     AC(init)(obj);
@@ -125,8 +139,10 @@ void harness(void)
     CHECK(A(setTweak)(obj, sym_t2, BLK) == 1, "tweak accepted"); CHECK(C_SET_TWEAK(&tk, sym_t2, BLK) == 1, "C tweak");
 #elif SEQ == 2
     CHECK(A(setTweak)(obj, 0, BLK) == 1, "null tweak accepted");                       /* C side: freshly keyed = zero tweak */
-#else
+#elif SEQ == 3
     CHECK(A(setTweak)(obj, 0, BLK) == 1, "null tweak accepted"); CHECK(A(setTweak)(obj, sym_t2, BLK) == 1, "tweak accepted"); CHECK(C_SET_TWEAK(&tk, sym_t2, BLK) == 1, "C tweak");
+#else
+    CHECK(A(setTweak)(obj, sym_t2, BLK) == 1, "tweak accepted"); CHECK(A(setTweak)(obj, sym_iv, BLK) == 1, "tweak accepted"); CHECK(C_SET_TWEAK(&tk, sym_iv, BLK) == 1, "C tweak");   /* three different non-null tweaks */
 #endif
 #endif
 #define CKS (&tk.ks)
